@@ -604,11 +604,80 @@ func main() {
 		concurrent(out, *seed, *n)
 	case "consumer":
 		consumer(out, *seed, *n)
+	case "wait":
+		waiting(out, *seed, *n)
 	case "replay":
 		replay(out, fs.Arg(0))
 	default:
 		fmt.Fprintln(os.Stderr, "unknown mode", mode)
 		os.Exit(2)
+	}
+}
+
+// waiting: a blocking Pop that has to WAIT for its message (monitor only; the model's pop has a finished context).
+// The inbox was read a moment ago (TryPop), a burst of messages is pushed, then Pop is called with a live context
+// and must not look into the inbox first (lastRead in the future): it receives the burst message by message.
+// "A pop returns a message whenever an admissible one is queued": if the burst holds an admissible message, Pop
+// returns one (an admissible one) well before its deadline, whatever stands in front of it; nothing is lost.
+func waiting(out *hx.Out, seed uint64, n int) {
+	for c := 0; c < n; c++ {
+		r := hx.NewRand(seed, "queue-wait", uint64(c))
+		out.Case("wait seed=%d case=%d", seed, c)
+		s := newSut(out, 32)
+		p := genPstate(r)
+		s.tryPop(p, filt{kind: "any"})
+		k := 1 + r.Intn(4)
+		for i := 0; i < k; i++ {
+			s.push(uint64(i+1), genBody(r, p))
+		}
+		f := genFilter(r, s, p)
+		fl := s.filter(f)
+		admissible := 0
+		for _, m := range s.shadow {
+			if fl(m) {
+				admissible++
+			}
+		}
+		queue.VerifSetLastRead(s.q, time.Now().Add(time.Hour))
+		s.out.Op("POPWAIT", "%s %s", p, f)
+		// with an admissible message in the burst the pop must return at once; the context (1 s) is only the net
+		// under a pop that got stuck, and a pop that returns when the context ends was stuck as well
+		deadline := 20 * time.Millisecond
+		if admissible > 0 {
+			deadline = time.Second
+		}
+		ctx, cancel := context.WithTimeout(context.Background(), deadline)
+		t0 := time.Now()
+		m := s.q.Pop(ctx, p.build(), fl)
+		took := time.Since(t0)
+		cancel()
+		out.Count(fmt.Sprintf("wait-admissible-%d-of-%d", admissible, k))
+		if admissible > 0 && took > 800*time.Millisecond {
+			s.out.ViolF("a waiting pop was released only by the end of its context (after %v) although %d of the %d messages pushed before it are admissible: with a live context it would still be waiting", took.Round(time.Millisecond), admissible, k)
+		}
+		switch {
+		case m == nil && admissible > 0:
+			s.out.ViolF("a waiting pop returned nothing within %v although %d of the %d messages pushed before it are admissible", took.Round(time.Millisecond), admissible, k)
+		case m != nil:
+			id := s.ids[m]
+			if !fl(m) {
+				s.out.ViolF("a waiting pop returned message %d which its filter does not admit", id)
+			}
+			if _, ok := s.shadow[id]; !ok {
+				s.out.ViolF("a waiting pop returned message %d which is not queued", id)
+			}
+			delete(s.shadow, id)
+		}
+		// whatever was not returned is still there: drain and count
+		queue.VerifSetLastRead(s.q, time.Time{})
+		left := 0
+		for s.q.TryPop(p.build(), queue.FilterAny) != nil {
+			left++
+		}
+		if left != len(s.shadow) {
+			s.out.ViolF("after a waiting pop %d messages can be drained, %d were pushed and not returned", left, len(s.shadow))
+		}
+		out.End()
 	}
 }
 
